@@ -323,7 +323,12 @@ func (e *Env) schemaOpts(n *Node) []z.SchemaOption {
 		out = append(out, z.WithCoercer(e.coercer(n)))
 	}
 	if n.Kind == KTime && n.Layout != "" {
-		out = append(out, z.Time.Format(n.Layout))
+		if len(n.Layout)%2 == 0 {
+			out = append(out, z.Time.Format(n.Layout))
+		} else {
+			layout := n.Layout // the same thing spelled with the function form of the option
+			out = append(out, z.Time.FormatFunc(func(data string) (time.Time, error) { return time.Parse(layout, data) }))
+		}
 	}
 	return out
 }
